@@ -1,4 +1,4 @@
 CONSTANTS Generic = {"BTC", "DCR", "POLIS", "DOGE", "GRS", "LTC"}  Table = "real"  Mode = "cases"
 SPECIFICATION Spec
-INVARIANTS GridOk FaithfulOk ApartOk
+INVARIANTS GridOk
 CHECK_DEADLOCK FALSE
